@@ -74,6 +74,7 @@ from vgi_rpc.rpc._types import (
     rpc_methods,
 )
 from vgi_rpc.rpc._wire import (
+    _build_result_batch,
     _ClientLogSink,
     _coerce_input_batch,
     _deserialize_params,
@@ -1080,6 +1081,10 @@ class RpcServer:
                 try:
                     result = getattr(self._impl, info.name)(**kwargs)
                     _validate_result(info.name, result, info.result_type)
+                    # Convert inside the guard: a value the declared Arrow type
+                    # cannot hold is the method's error, and must be answered as
+                    # one rather than escape past the response stream.
+                    result_batch = _build_result_batch(info.result_schema, result)
                 except Exception as exc:
                     _hook_exc = exc
                     status = "error"
@@ -1087,7 +1092,9 @@ class RpcServer:
                     error_message = str(exc)
                     _write_error_batch(writer, schema, exc, server_id=self._server_id)
                     return
-                _write_result_batch(writer, info.result_schema, result, self._external_config, shm=shm)
+                _write_result_batch(
+                    writer, info.result_schema, result, self._external_config, shm=shm, prebuilt=result_batch
+                )
         finally:
             duration_ms = (time.monotonic() - start) * 1000
             _emit_access_log(
